@@ -20,7 +20,7 @@ PROP = 'C20'
 KEY_FAILED = 'C20:failed-update-appends-version'
 KEY_RESTORE_CONN = 'C20:restore-ignores-explicit-connection'
 META = {
-    'extractors': [],
+    'extractors': ['pyversion'],
     'technique': ('Lean 4 proof (history invariant by induction over the operation list; per-step frame lemma for '
                   'other masters; concrete counter-witness) + differential correspondence on master/version tables'),
     'level_text': ('Theorems C20_*: for every history of create/assign/set/restore over any number of masters in which no '
